@@ -107,6 +107,25 @@ func (x *Exec) enterLoop(st *State, fr *Frame, from, to *ssa.BasicBlock, li *loo
 		for _, cl := range invs {
 			x.addObl(fmt.Sprintf("loop%d.step", k), cl.Tag, cl.Text, st, evalInv(cl), cl.Props)
 		}
+		if ct != nil && fr.prevSt != nil && fr.prevSt[to] != nil {
+			for _, cl := range ct.Of("loopstep") {
+				if cl.Loop != k {
+					continue
+				}
+				env := x.frameEnv(st, fr)
+				env.prevSt, env.prevNames = fr.prevSt[to], fr.prevNames[to]
+				sv, err := evalSpecFns(cl.node, env, x.sigs, bound, fr.xsigs, fr.xsyms)
+				if err != nil {
+					if strings.Contains(err.Error(), "unknown identifier") && fr.isTop {
+						x.addInapplicable(fmt.Sprintf("loop%d.iter", k), cl.Tag, cl.Text, err.Error(), cl.Props)
+						continue
+					}
+					x.fail("loop %d step %s of %s: %v", k, cl.Tag, fr.fn.Name(), err)
+					continue
+				}
+				x.addObl(fmt.Sprintf("loop%d.iter", k), cl.Tag, cl.Text, st, sv.T, cl.Props)
+			}
+		}
 		x.covers[fmt.Sprintf("loop%d.backedge", k)] = true
 		for i, phi := range phis {
 			if savedHas[i] {
@@ -146,6 +165,10 @@ func (x *Exec) enterLoop(st *State, fr *Frame, from, to *ssa.BasicBlock, li *loo
 	for _, cl := range invs {
 		st.Assume(evalInv(cl))
 	}
+	if fr.prevSt == nil {
+		fr.prevSt, fr.prevNames = map[*ssa.BasicBlock]*State{}, map[*ssa.BasicBlock]map[string]Value{}
+	}
+	fr.prevSt[to], fr.prevNames[to] = st.Clone(), cloneNames(fr.names)
 	fr.loops[to] = true
 	return x.execFrom(st, fr, to, nphi, from)
 }
